@@ -83,6 +83,10 @@ def ops(values=(1, 2)):
     out.append(["create", "K1", {"a": 1}])
     out.append(["set", "F1", {"sid": "hamlet/other"}])
     out.append(["update", "V1", {"sid": "x", "a": 5}])
+    # values that are false in a boolean test are values too (frame 0, an empty comment, a flag switched off)
+    out.append(["set", "F1", {"a": 0}])
+    out.append(["set", "F1", {"b": ""}])
+    out.append(["setmix", "F1", {"a": False, "b": 0}])
     # several attributes in one set() call
     out.append(["setkw", "F1", {"a": 3, "b": 3}])
     out.append(["setmix", "F1", {"a": 4, "c": 4}])
